@@ -5,5 +5,9 @@ CONSTANTS
   ItemSet = {1, 2, 3, 4, 5}
   NodeCounts = {1, 2, 3}
   DefaultConc = 16
-INVARIANTS TypeOK FlagSound TimeoutSignalHeard OfferedInFull SuccessIff ReturnsByTimeout Independence
+  MaxCalls = 1
+  HistClients = {}
+  HistOutcomes = {}
+  Design = "asks"
+INVARIANTS TypeOK FlagSound TimeoutSignalHeard OfferedInFull SuccessIff ReturnsByTimeout Independence ClassifiedByNow
 CHECK_DEADLOCK FALSE
